@@ -8,7 +8,8 @@ LHA -lh0- header levels 0/1/2, ARC/Spark stored + RLE90 (methods 1/2/3, 0x82/0x8
 LZX stored, PowerPacker PP20 (literals + matches), MMCMP stored + bit-packed blocks, LHA -lh4-/-lh5-/-lh6-/-lh7-
 (LZ77 incl. matches into the blank dictionary in front of the file + static Huffman blocks), ARC squeeze (Huffman node
 table over RLE90), ARC crunch / squash / Spark compress (LZW 9..16 bit in groups of 8 codes), xz / LZMA2 with a
-chosen chunk layout (`xz_own`: container + LZMA range encoder; uncompressed and LZMA chunks, any dictionary size).
+chosen chunk layout (`xz_own`: container + LZMA range encoder; uncompressed and LZMA chunks, any dictionary size),
+LHA -lh1- (`lh1_encode`: LZSS 4 KiB + adaptive Huffman with tree rebuilds, static position code).
 """
 import bz2
 import io
@@ -756,6 +757,145 @@ def lz_expand(toks, prefile=b" "):
     return bytes(out)
 
 
+# ------------------------------------------------------------------ LHA -lh1- (LZHUF: 4 KiB LZSS + adaptive Huffman)
+# Format (LHarc 1.x / H. Okumura + H. Yoshizaki's LZHUF): 314 codes (256 literals, copy lengths 3..60) coded with an
+# adaptive Huffman tree whose frequencies are halved and whose shape is rebuilt whenever the root count reaches 0x8000;
+# a copy is followed by its position: upper 6 bits through a fixed prefix code (3..8 bits), lower 6 bits verbatim.
+# The 4 KiB dictionary in front of the file holds blanks.  Bits MSB first.
+LH1_N, LH1_F, LH1_NCHAR = 4096, 60, 314
+LH1_T = LH1_NCHAR * 2 - 1
+LH1_R = LH1_T - 1
+LH1_MAXFREQ = 0x8000
+_LH1_PLEN = [3] + [4] * 3 + [5] * 8 + [6] * 12 + [7] * 24 + [8] * 16
+
+
+def _lh1_pcodes():
+    codes, c = [], 0
+    for ln in _LH1_PLEN:
+        codes.append(c >> (8 - ln))
+        c += 1 << (8 - ln)
+    return codes
+
+
+_LH1_PCODE = _lh1_pcodes()
+
+
+class _Lh1Tree:
+    def __init__(s):
+        T, R, NC = LH1_T, LH1_R, LH1_NCHAR
+        s.freq = [0] * (T + 1)
+        s.prnt = [0] * (T + NC)
+        s.son = [0] * T
+        for i in range(NC):
+            s.freq[i] = 1
+            s.son[i] = i + T
+            s.prnt[i + T] = i
+        i, j = 0, NC
+        while j <= R:
+            s.freq[j] = s.freq[i] + s.freq[i + 1]
+            s.son[j] = i
+            s.prnt[i] = s.prnt[i + 1] = j
+            i += 2
+            j += 1
+        s.freq[T] = 0xffff
+        s.prnt[R] = 0
+        s.rebuilds = 0
+
+    def reconst(s):
+        T, NC = LH1_T, LH1_NCHAR
+        freq, son, prnt = s.freq, s.son, s.prnt
+        j = 0
+        for i in range(T):
+            if son[i] >= T:
+                freq[j] = (freq[i] + 1) // 2
+                son[j] = son[i]
+                j += 1
+        i, j = 0, NC
+        while j < T:
+            f = freq[i] + freq[i + 1]
+            k = j - 1
+            while f < freq[k]:
+                k -= 1
+            k += 1
+            freq[k + 1:j + 1] = freq[k:j]
+            freq[k] = f
+            son[k + 1:j + 1] = son[k:j]
+            son[k] = i
+            i += 2
+            j += 1
+        for i in range(T):
+            k = son[i]
+            if k >= T:
+                prnt[k] = i
+            else:
+                prnt[k] = prnt[k + 1] = i
+        s.rebuilds += 1
+
+    def code(s, c):
+        """bits (root first) of symbol c in the current tree"""
+        bits = []
+        k = s.prnt[c + LH1_T]
+        while True:
+            bits.append(k & 1)
+            k = s.prnt[k]
+            if k == LH1_R:
+                break
+        bits.reverse()
+        return bits
+
+    def update(s, c):
+        freq, son, prnt, T = s.freq, s.son, s.prnt, LH1_T
+        if freq[LH1_R] == LH1_MAXFREQ:
+            s.reconst()
+        c = prnt[c + T]
+        while True:
+            freq[c] += 1
+            k = freq[c]
+            l = c + 1
+            if k > freq[l]:
+                while k > freq[l + 1]:
+                    l += 1
+                freq[c] = freq[l]
+                freq[l] = k
+                i = son[c]
+                prnt[i] = l
+                if i < T:
+                    prnt[i + 1] = l
+                j = son[l]
+                son[l] = i
+                prnt[j] = c
+                if j < T:
+                    prnt[j + 1] = c
+                son[c] = j
+                c = l
+            c = prnt[c]
+            if c == 0:
+                break
+
+
+def lh1_encode(data, rng=None, toks=None):
+    """-lh1- stream of `data`; returns (stream, tokens, number of tree rebuilds)"""
+    if toks is None:
+        toks = lz_tokens(data, LH1_N - LH1_F, rng, max_match=LH1_F, prefile=b" ", skip_prob=0.03 if rng else 0.0)
+    assert lz_expand(toks) == data
+    w = _BitWM()
+    tree = _Lh1Tree()
+    for t in toks:
+        if isinstance(t, int):
+            c = t
+        else:
+            off, ln = t
+            assert 3 <= ln <= LH1_F and 0 <= off < LH1_N
+            c = 253 + ln
+        for b in tree.code(c):
+            w.put(b, 1)
+        tree.update(c)
+        if not isinstance(t, int):
+            w.put(_LH1_PCODE[off >> 6], _LH1_PLEN[off >> 6])
+            w.put(off & 0x3f, 6)
+    return w.done(), toks, tree.rebuilds
+
+
 def _lh_put_len(w, k):
     if k < 7:
         w.put(k, 3)
@@ -1022,6 +1162,8 @@ def arc_lzw(src, maxbits=12, reset_every=0, rng=None, stats=None):
     dec_next = 257           # the decoder's next free entry
     have_last = False
     events = []
+    kwkwk = []               # (start, end) in src of strings whose code the decoder does not have yet when it arrives
+    lens = {}
 
     def put(code):
         nonlocal acc, nacc, group
@@ -1041,6 +1183,8 @@ def arc_lzw(src, maxbits=12, reset_every=0, rng=None, stats=None):
 
     def emit(code, pos):
         nonlocal width, dec_next, have_last
+        if have_last and code == dec_next and dec_next < maxcode:
+            kwkwk.append((pos - lens.get(code, 1), pos))
         put(code)
         if have_last and dec_next < maxcode:
             dec_next += 1
@@ -1067,6 +1211,7 @@ def arc_lzw(src, maxbits=12, reset_every=0, rng=None, stats=None):
             emit(ent, pos)
             if free < maxcode:
                 table[key] = free
+                lens[free] = lens.get(ent, 1) + 1
                 free += 1
             elif reset_every:
                 since_full += 1
@@ -1078,6 +1223,7 @@ def arc_lzw(src, maxbits=12, reset_every=0, rng=None, stats=None):
                     dec_next = 257
                     have_last = False
                     table = {}
+                    lens = {}
                     free = 257
                     since_full = 0
                     events.append(("reset", pos))
@@ -1087,6 +1233,7 @@ def arc_lzw(src, maxbits=12, reset_every=0, rng=None, stats=None):
         out.append(acc & 0xff)
     if stats is not None:
         stats["events"] = events
+        stats["kwkwk"] = kwkwk
     return bytes(out)
 
 
